@@ -16,7 +16,10 @@ import time
 VERIF = os.path.dirname(os.path.dirname(os.path.abspath(__file__)))
 REPO = os.environ.get("VERIF_REPO", "/repo")
 BUILD = os.environ.get("VERIF_BUILD", os.path.join(VERIF, "build"))
-COQ = os.path.join(VERIF, "coq")
+SCRATCH = "VERIF_BUILD" in os.environ          # a run against a scratch worktree (seeded change, trial fix)
+# A scratch run regenerates Cnn_Consts.v from the CHANGED code and rebuilds proofs against it: that must never
+# touch the development under /verif/coq, so it works on a copy (timestamps kept: the build stays incremental).
+COQ = os.path.join(BUILD, "coq") if SCRATCH else os.path.join(VERIF, "coq")
 GOBIN = os.path.join(BUILD, "gobin")
 EVID = os.environ.get("VERIF_EVID", os.path.join(VERIF, "evidence"))   # scratch runs (seeded changes) write elsewhere
 
@@ -451,8 +454,23 @@ class Prop:
         return []
 
 
+def _scratch_coq():
+    if SCRATCH and not os.path.isdir(COQ):
+        os.makedirs(BUILD, exist_ok=True)
+        with Lock("coq"):     # the scratch lock; the source tree is only read
+            if not os.path.isdir(COQ):
+                run_cmd(["cp", "-a", os.path.join(VERIF, "coq"), COQ + ".tmp"])
+                os.rename(COQ + ".tmp", COQ)
+                for f in ("Makefile", "Makefile.conf", ".Makefile.d"):
+                    try:
+                        os.remove(os.path.join(COQ, f))
+                    except OSError:
+                        pass
+
+
 class Ctx:
     def __init__(self, prop, tier, seed):
+        _scratch_coq()
         self.prop, self.tier, self.seed = prop, tier, seed
         self.work = os.path.join(BUILD, prop.id, "run")
         shutil.rmtree(self.work, ignore_errors=True)
